@@ -1,8 +1,89 @@
-(* Props/C16comp.v — C16 for the compressed format: what is proved.  Statements only.
-   NOT proved: C16_comp_count (exactly min(k, n) consecutive rollbacks succeed) — false across truncating
-   commits (known finding of C04) and not attempted for push-only histories. *)
+(* Props/C16comp.v — C16 for the compressed format.  Statements only. *)
 From Anydb Require Import Common.Base Common.LE Gen.Consts Gen.Sizes Codec.Vecdb
   Vec.CvRegion Vec.CvPages Vec.CvModel Vec.CvInv Vec.CvInst Vec.CvInstProofs.
+
+(* COUNT: after any push/commit history from the initial import (n commits with increasing stamps, retention k > 0, no truncating commits) exactly min(k, n) consecutive rollbacks succeed, their results follow the snapshot stack (RC + C04_comp_chain_reads), and the next rollback is refused leaving the vector unchanged *)
+Theorem C16_comp_count :
+  forall (T : Type) (size : N) (enc : T -> list N) (dec : list N -> T)
+         (compress : N -> list T -> list cell) (decompress : list cell -> N -> option (list T))
+         (fmt vver : N),
+       0 < size ->
+       size <= MAX_UNCOMPRESSED_PAGE_SIZE ->
+       (forall t : T, len (enc t) = size) ->
+       (forall t : T, dec (enc t) = t) ->
+       (forall (k : N) (l : list T), decompress (compress k l) (len l) = Some l) ->
+       (forall (k : N) (l : list T), len l <= MAX_UNCOMPRESSED_PAGE_SIZE / size -> len (compress k l) < two32) ->
+       format_code_ok fmt = true ->
+       vver < two32 ->
+       forall (k : N) (s0 : cvs T) (h : list (op T)),
+       cv_import_k T size fmt vver k None [] [] = Ok s0 ->
+       k <> 0 ->
+       Forall (is_pc T) h ->
+       chain_hist T size enc dec compress decompress fmt vver s0 h ->
+       no_panic T size enc dec compress decompress fmt vver s0 h ->
+       let s := cv_run T size enc dec compress decompress fmt vver s0 h in
+       let a := ss_run T k {| ss_cur := []; ss_stamp := 0; ss_base := []; ss_undo := [] |} h in
+       let m := Nat.min (N.to_nat k) (commits T h) in
+       rollbacks_ok T size enc dec compress decompress fmt vver s m /\
+       RC T size enc dec compress fmt vver
+         (cv_run T size enc dec compress decompress fmt vver s (repeat Rollback m))
+         (ss_run T k a (repeat Rollback m)) /\
+       cv_step T size enc dec compress decompress fmt vver
+         (cv_run T size enc dec compress decompress fmt vver s (repeat Rollback m)) Rollback =
+       (cv_run T size enc dec compress decompress fmt vver s (repeat Rollback m), Err EIo).
+Proof. exact comp_count. Qed.
+Print Assumptions C16_comp_count.
+
+(* the same from any state refining the reference (histories with truncations outside the known class included): as many consecutive rollbacks succeed as the reference has snapshots *)
+Theorem C16_comp_count_general :
+  forall (T : Type) (size : N) (enc : T -> list N) (dec : list N -> T)
+         (compress : N -> list T -> list cell) (decompress : list cell -> N -> option (list T))
+         (fmt vver : N),
+       0 < size ->
+       size <= MAX_UNCOMPRESSED_PAGE_SIZE ->
+       (forall t : T, len (enc t) = size) ->
+       (forall t : T, dec (enc t) = t) ->
+       (forall (k : N) (l : list T), decompress (compress k l) (len l) = Some l) ->
+       (forall (k : N) (l : list T), len l <= MAX_UNCOMPRESSED_PAGE_SIZE / size -> len (compress k l) < two32) ->
+       vver < two32 ->
+       forall (n : nat) (s : cvs T) (a : sspec T),
+       RC T size enc dec compress fmt vver s a ->
+       length (ss_undo T a) = n ->
+       rollbacks_ok T size enc dec compress decompress fmt vver s n /\
+       RC T size enc dec compress fmt vver
+         (cv_run T size enc dec compress decompress fmt vver s (repeat Rollback n))
+         (ss_run T (s_ssc s) a (repeat Rollback n)) /\
+       ss_undo T (ss_run T (s_ssc s) a (repeat Rollback n)) = [] /\
+       cv_step T size enc dec compress decompress fmt vver
+         (cv_run T size enc dec compress decompress fmt vver s (repeat Rollback n)) Rollback =
+       (cv_run T size enc dec compress decompress fmt vver s (repeat Rollback n), Err EIo).
+Proof. exact count_rollbacks. Qed.
+Print Assumptions C16_comp_count_general.
+
+(* the reference holds min(k, n) snapshots after n commits *)
+Theorem C16_comp_count_spec :
+  forall (T : Type) (size : N) (compress : N -> list T -> list cell)
+         (decompress : list cell -> N -> option (list T)),
+       N ->
+       forall vver : N,
+       0 < size ->
+       size <= MAX_UNCOMPRESSED_PAGE_SIZE ->
+       (forall (k : N) (l : list T), decompress (compress k l) (len l) = Some l) ->
+       (forall (k : N) (l : list T), len l <= MAX_UNCOMPRESSED_PAGE_SIZE / size -> len (compress k l) < two32) ->
+       vver < two32 ->
+       forall (k : N) (h : list (op T)) (a : sspec T),
+       Forall (is_pc T) h ->
+       (length (ss_undo T a) <= N.to_nat k)%nat ->
+       length (ss_undo T (ss_run T k a h)) = Nat.min (N.to_nat k) (length (ss_undo T a) + commits T h).
+Proof. exact ss_count. Qed.
+Print Assumptions C16_comp_count_spec.
+
+(* with no retained record for the current stamp the rollback is refused and nothing changes *)
+Theorem C16_comp_beyond_retention :
+  forall (T : Type) (size : N) (dec : list N -> T) (s : cvs T) (mem : list (ent T)),
+       Chain T size dec s mem [] -> cv_rollback T size dec s = (s, Err EIo).
+Proof. exact chain_empty. Qed.
+Print Assumptions C16_comp_beyond_retention.
 
 (* a failed single rollback leaves the vector unchanged (whatever the record bytes are) *)
 Theorem C16_comp_fail_single :
@@ -32,7 +113,7 @@ Theorem C16_comp_dir :
 Proof. exact save_change_file_spec. Qed.
 Print Assumptions C16_comp_dir.
 
-(* parse_change_data o serialize_changes returns the recorded fields *)
+(* parse_change_data o serialize_changes returns the recorded fields and consumes the record exactly (expect_end, 397122a) *)
 Theorem C16_comp_record_roundtrip :
   forall (T : Type) (size : N) (enc : T -> list N) (dec : list N -> T)
          (compress : N -> list T -> list cell) (decompress : list cell -> N -> option (list T)),
